@@ -194,7 +194,15 @@ def run(prop, spec, tier, scratch, known, vcheck):
         # generator instance for the program and everything it includes
         rc, msg = genpipe.run_frugal(exe, os.path.join(cat, os.path.basename(f)), genopt, outdir, recursive=bool(models[prog]["includes"]))
         if rc != 0:
-            inconclusive.append("compiler failed on %s: %s" % (prog, msg[-400:]))
+            # a catalogue program is valid IDL (the unchanged compiler accepts it): a compiler that REJECTS it with its own
+            # diagnostic ("Failed to generate ...", exit 1), twice in a row, is a reproduced violation; anything else
+            # (signal, missing binary, disk) stays inconclusive
+            rc2, msg2 = genpipe.run_frugal(exe, os.path.join(cat, os.path.basename(f)), genopt, outdir + "_again", recursive=bool(models[prog]["includes"]))
+            if rc == 1 and rc2 == 1 and "Failed to generate" in msg and "Failed to generate" in msg2:
+                tc_violations.append({"property": prop, "harness": "frugal --gen go", "kind": "compile", "label": "the compiler accepts the valid catalogue program", "site": label,
+                                      "fingerprint": "c02|%s|compile" % label, "detail": msg.strip()[-300:], "vector": [], "program": label})
+            else:
+                inconclusive.append("compiler failed on %s: %s" % (prog, msg[-400:]))
             continue
         pkg = pkgs[prog]
         gdir = os.path.join(outdir, pkg)
